@@ -230,7 +230,9 @@ def run(pid, tier, seed, args, t0):
     if hasattr(mod, 'evidence_hook'): mod.evidence_hook(ev, w, results, extra)
     os.makedirs(os.path.join(ROOT, 'evidence'), exist_ok=True)
     if not args.only:
-        json.dump(ev, open(os.path.join(ROOT, 'evidence', pid + '.json'), 'w'), indent=1)
+        # evidence is only ever written for runs against /repo itself (scratch copies used for seeded changes write under out/)
+        evp = os.path.join(ROOT, 'evidence', pid + '.json') if os.path.realpath(REPO) == '/repo' else os.path.join(outdir, 'evidence_scratch.json')
+        json.dump(ev, open(evp, 'w'), indent=1)
     # ---- report
     print('%s [%s]: %d functions, %d obligations, %d discharged, %d failed, %d unknown; native evaluations %d; %.1fs' % (
         pid, tier, len(results), n_obl, n_dis, len(failed), len(unknown), native.get('evaluations', 0), wall))
